@@ -263,9 +263,34 @@ def run_sharded(exe, cases, extra_args=(), timeout=1800, shards=None, tag="run")
         got = open(outp).read().split("\n")
         if got and got[-1] == "":
             got.pop()
-        if len(got) != cnt:
-            # the process died (abort / stack overflow / timeout): mark the missing lines
-            got = got + ["RUNNER-DIED rc=%s" % p.returncode] * (cnt - len(got))
+        restarts = 0
+        while len(got) < cnt:
+            # the process died (abort / stack overflow / timeout) on the case after the last line it printed: mark that
+            # case and run the rest of the shard in a new process, so that exactly the cases that kill it are reported
+            got.append("RUNNER-DIED rc=%s" % p.returncode)
+            rest = open(path).read().split("\n")[len(got):cnt]
+            restarts += 1
+            if not rest:
+                break
+            if restarts > 12 or time.time() - t0 > timeout:
+                # it keeps dying: the cases that killed it are marked; the rest of this shard is not run
+                got += ["NOT-RUN (the runner died %d times in this shard)" % restarts] * (cnt - len(got))
+                break
+            rpath = path + ".rest"
+            with open(rpath, "w") as f:
+                f.write("\n".join(rest) + "\n")
+            try:
+                p = subprocess.run([exe, rpath] + list(extra_args), stdout=subprocess.PIPE, stderr=subprocess.DEVNULL, text=True, errors="replace",
+                                   timeout=max(1, timeout - (time.time() - t0)))
+                more = p.stdout.split("\n")
+            except subprocess.TimeoutExpired as e:
+                more = (e.stdout or b"").decode("utf-8", "replace").split("\n") if isinstance(e.stdout, bytes) else (e.stdout or "").split("\n")
+                class _P: returncode = "timeout"
+                p = _P()
+            os.remove(rpath)
+            if more and more[-1] == "":
+                more.pop()
+            got += more[:len(rest)]
         lines.extend(got[:cnt])
         os.remove(path)
         os.remove(outp)
